@@ -246,6 +246,7 @@ class Tle:
             "element_nb": self.element_nb,
             "revolutions": self.revolutions,
             "type": self.type,
+            "classification_type": self.classification,
         }
         return Orbit(self.to_list(), self.epoch, "TLE", "TEME", "Sgp4", **data)
 
@@ -289,8 +290,9 @@ class Tle:
         date = orbit.date.change_scale("UTC").datetime
         i, Ω, e, ω, M, n = orbit
 
-        line1 = "1 {norad_id:0>5}U {cospar_id:<8} {date:%y}{day:012.8f} {ndot:>10} {ndotdot:>8} {bstar:>8} 0 {elnb:>4}".format(
+        line1 = "1 {norad_id:0>5}{classification:1} {cospar_id:<8} {date:%y}{day:012.8f} {ndot:>10} {ndotdot:>8} {bstar:>8} 0 {elnb:>4}".format(
             norad_id=norad_id,
+            classification=str(orbit._data.get("classification_type", "U"))[:1] or "U",
             cospar_id=cospar_id,
             date=date,
             day=int("{:%j}".format(date))
